@@ -8,6 +8,7 @@ HERE = os.path.dirname(os.path.dirname(os.path.abspath(__file__)))
 MAP = {"mg/deps.go": ["C01", "C02", "C03", "C13", "C12", "C05"], "mg/fn.go": ["C14", "C01", "C12"], "mg/errors.go": ["C03", "C05", "C15"],
        "mg/runtime.go": ["C11", "C08", "C09", "C15"], "sh/cmd.go": ["C15", "C16", "C05"], "sh/helpers.go": ["C15", "C16"],
        "target/newer.go": ["C17"], "target/target.go": ["C17"], "parse/parse.go": ["C04", "C06", "C07", "C18", "C19"],
+       "mage/template.go": ["C04", "C05", "C06", "C07", "C08", "C11", "C12", "C18", "C19"],
        "internal/run.go": ["C10", "C11", "C19", "C08", "C09"],
        "mage/main.go": ["C04", "C05", "C06", "C08", "C09", "C10", "C11", "C12", "C18", "C19", "C20"]}
 ids = sys.argv[1:] or sorted(d for d in os.listdir(os.path.join(HERE, "benign")) if os.path.isdir(os.path.join(HERE, "benign", d)))
@@ -26,6 +27,13 @@ with ThreadPoolExecutor(max_workers=3) as ex:
                 res = "quiet" if m.group(2) == "missed" else ("FALSE ALARM (%s violations, %s with an input)" % (m.group(4), m.group(5)) if m.group(2) == "CAUGHT" else m.group(2))
                 rows.append((i, ",".join(files), m.group(1), res))
                 print(i, m.group(1), res); sys.stdout.flush()
+old = []
+if sys.argv[1:] and os.path.exists(os.path.join(HERE, "benign", "RESULTS.md")):
+    for l in open(os.path.join(HERE, "benign", "RESULTS.md")).read().splitlines()[2:]:
+        c = [x.strip() for x in l.strip("|").split("|")]
+        if len(c) == 4 and c[0] not in ids:
+            old.append(tuple(c))
+rows = sorted(old + rows)
 with open(os.path.join(HERE, "benign", "RESULTS.md"), "w") as f:
     f.write("| harmless change | files | check | result |\n|---|---|---|---|\n")
     for r in rows:
